@@ -185,6 +185,8 @@ def py(e) -> str:
         return pynum(e[1]) if e[1] >= 0 else f"({pynum(e[1])})"
     if k == "var":
         return e[1]
+    if k == "hash":
+        return 'HASH("' + e[1] + '")'
     if k == "bin":
         return f"({py(e[2])} {e[1]} {py(e[3])})"
     if k == "neg":
@@ -233,6 +235,9 @@ def cq(e, env) -> str:
         return cq_num(e[1])
     if k == "var":
         return f"(EVar {cq_var(e[1], env)})"
+    if k == "hash":
+        from .ic10 import signed_crc
+        return cq_num(signed_crc(e[1]))
     if k == "bin":
         return f"(EBin {BINOPS[e[1]]} {cq(e[2], env)} {cq(e[3], env)})"
     if k == "neg":
@@ -329,6 +334,7 @@ class Profile:
         self.max_stmts = 5
         self.fn_names = None            # pool of function names (identifier adversary of C05)
         self.name_strings = None        # device-name strings to use in named batch accesses
+        self.hash_names = None          # strings compared against as HASH("...") literals in conditions
         self.max_depth = 2
         self.__dict__.update(kw)
 
@@ -507,6 +513,8 @@ class Gen:
 
     def cond(self, sc, depth=2):
         r = self.r
+        if self.pf.hash_names and r.random() < 0.35:
+            return ("cmp", r.choice(["==", "!="]), self.read(sc, 1), ("hash", r.choice(self.pf.hash_names)))
         c = r.random()
         if c < 0.6:
             return ("cmp", r.choice(list(CMPS)), self.expr(sc, depth - 1), self.expr(sc, depth - 1))
